@@ -40,7 +40,7 @@ RouteSteps(steps, i, env, backends, req) ==
     IF i > Len(steps) THEN NoHit
     ELSE LET s == steps[i] IN
          CASE s.kind = "setvar" ->
-                 IF (s.guard # "" /\ Get(env, s.guard) # NoHit) \/ s.hashdr \/ s.cond # "" \/ s.key \notin {"base", "defbase", "host"}
+                 IF (\E k \in 1..Len(s.guards) : Get(env, s.guards[k]) # NoHit) \/ s.hashdr \/ s.cond # "" \/ s.key \notin {"base", "defbase", "host"}
                  THEN RouteSteps(steps, i + 1, env, backends, req)
                  ELSE LET v == LookupFile(FileOf(s), KeyOf(s.key, req)) IN
                       RouteSteps(steps, i + 1, IF v # NoHit THEN Set(env, s.var, v) ELSE env, backends, req)
